@@ -82,8 +82,112 @@ def _bools(e):
 def run(rep, prop="C05"):
     from .. import common
     nmfu = common.load_nmfu()
+    n = 0
+    program = Program(nmfu, common.repo_source())
+    for fn, tag in ((prove, FNQ), (prove_dfs, "DFA.dfs")):
+        try:
+            n += fn(rep, nmfu, program, prop)
+        except (Unsupported, NeedFork, KeyError, AttributeError) as e:
+            rep.unavailable(f"{prop}/pyvc/{tag}/engine", f"outside the modelled Python subset: {type(e).__name__}: {e}")
+    return n
+
+
+# ------------------------------------------------------------------------------------------------ reachability (remove-inaccessible)
+
+def prove_dfs(rep, nmfu, program, prop="C05"):
+    """DFA.dfs is what _optimize_remove_inaccessible keeps: it must yield every state that control can enter.  Per-transition contract,
+    from the real AST: a start state with one transition (target T) carrying one or two actions whose override mode / override targets
+    are given by contract (every mode, every ordered pair of modes).  Required (soundness of the removal): the yielded states include
+      T                unless an action before it always leaves (ALWAYS_GOTO_OTHER / ALWAYS_GOTO_UNDEFINED);
+      the override targets of every action that may or always jumps and is reached (no always-leaving action before it).
+    And _optimize_remove_inaccessible removes exactly the states dfs (and the start actions' targets) do not reach, keeping the order."""
+    fnq = "DFA.dfs"
+    rep.fn(fnq, "DfaCompileCtx._optimize_remove_inaccessible")
+    M = nmfu.ActionOverrideMode
+    modes = list(M)
+    agg = {}
+
+    def record(clause, ok, what, detail):
+        a = agg.setdefault(clause, {"n": 0, "bad": None})
+        a["n"] += 1
+        if not ok and a["bad"] is None:
+            a["bad"] = (what, detail)
+    old_ms = getattr(Engine, "mutable_sets", False)
+    Engine.mutable_sets = True
     try:
-        return prove(rep, nmfu, Program(nmfu, common.repo_source()), prop)
-    except (Unsupported, NeedFork, KeyError, AttributeError) as e:
-        rep.unavailable(f"{prop}/pyvc/{FNQ}/engine", f"outside the modelled Python subset: {type(e).__name__}: {e}")
-        return 0
+        import itertools
+        for combo in [(m,) for m in modes] + list(itertools.product(modes, repeat=2)):
+            def body(eng, combo=combo):
+                T = SObj(nmfu.DFState, {"transitions": HList([])})
+                acts, outs = [], []
+                for i, m in enumerate(combo):
+                    O = SObj(nmfu.DFState, {"transitions": HList([])})
+                    acts.append(SObj(nmfu.CallHook, {"name": f"a{i}", "__mode": m, "__targets": HList([O])}))
+                    outs.append(O)
+                tr = SObj(nmfu.DFTransition, {"on_values": HList(["x"]), "target": T, "is_fallthrough": False, "error_handling": False, "actions": HList(acts)})
+                q = SObj(nmfu.DFState, {"transitions": HList([tr])})
+                dfa = SObj(nmfu.DFA, {"states": HList([q, T] + outs), "starting_state": q, "accepting_states": HList([])})
+                v, _ = call_function(eng, fnq, [], self_obj=dfa)
+                return dict(res=eng.iterate(v), q=q, T=T, outs=outs), {}
+            cs = dict(DEBUG_CONTRACTS)
+            cs["Action.get_target_override_mode"] = lambda eng, a, kw: a[0].fields["__mode"]
+            cs["Action.get_target_override_targets"] = lambda eng, a, kw: a[0].fields["__targets"]
+            for r in explore(program, body, contracts=cs):
+                detail = {"modes": [m.name for m in combo]}
+                if r.exits or r.dead is not False or r.value is None:
+                    record("no-exception", False, f"raises {[e.exc_cls.__name__ for e in r.exits]}", detail)
+                    continue
+                record("no-exception", True, "", detail)
+                b = r.value
+                got = set(id(x) for x in b["res"])
+                need = {id(b["q"])}
+                left = False
+                for m, O in zip(combo, b["outs"]):
+                    if left:
+                        break
+                    if m in (M.MAY_GOTO_TARGET, M.ALWAYS_GOTO_OTHER):
+                        need.add(id(O))
+                    if m in (M.ALWAYS_GOTO_OTHER, M.ALWAYS_GOTO_UNDEFINED):
+                        left = True
+                if not left:
+                    need.add(id(b["T"]))
+                record("yields-every-state-control-can-enter", need <= got, f"dfs misses {len(need - got)} state(s) that the transition can lead to", detail)
+        # remove-inaccessible: exactly the unreached states go, order kept, nothing with the flag off
+        FLAG = z3.Bool("flag_REMOVE")
+
+        def body2(eng):
+            st = [SObj(nmfu.DFState, {"transitions": HList([])}) for _ in range(4)]
+            dfa = SObj(nmfu.DFA, {"states": HList(list(st)), "starting_state": st[0], "accepting_states": HList([]), "__reach": HList([st[0], st[2]])})
+            O = st[3]
+            sa = SObj(nmfu.CallHook, {"name": "s", "__mode": M.MAY_GOTO_TARGET, "__targets": HList([O])})
+            me = SObj(nmfu.DfaCompileCtx, {"dfa": dfa, "start_actions": HList([sa])})
+            fl = {f: (FLAG if f is nmfu.ProgramFlag.REMOVE_INACCESIBLE_STATES else z3.Bool("flag_" + f.name)) for f in nmfu.ProgramFlag}
+            eng.class_store.setdefault(nmfu.ProgramData, {})["_flags"] = HDict(fl)
+            v, _ = call_function(eng, "DfaCompileCtx._optimize_remove_inaccessible", [], self_obj=me)
+            return dict(st=st, dfa=dfa, ret=v), {}
+        cs = dict(DEBUG_CONTRACTS)
+        cs["DFA.dfs"] = lambda eng, a, kw: a[0].fields["__reach"]
+        cs["Action.get_target_override_targets"] = lambda eng, a, kw: a[0].fields["__targets"]
+        cs["Action.all_subactions"] = lambda eng, a, kw: HList([a[0]])
+        cs["dprint.__call__"] = lambda eng, a, kw: None
+        for r in explore(program, body2, contracts=cs, fork_functions="*"):
+            if r.exits or r.dead is not False or r.value is None:
+                record("remove.no-exception", False, f"raises {[e.exc_cls.__name__ for e in r.exits]}", {})
+                continue
+            b = r.value
+            now = _items(b["dfa"].fields["states"])
+            on = not feasible(r.pc + [z3.Not(FLAG)])
+            want = [b["st"][0], b["st"][2], b["st"][3]] if on else list(b["st"])
+            record("remove.exactly-the-unreached", _same(now, want), f"states after the pass: {len(now)} kept, expected {len(want)} (flag {'on' if on else 'off'}); the start actions' targets count as reached", {"flag": on})
+    finally:
+        Engine.mutable_sets = old_ms
+    n = 0
+    for clause, a in sorted(agg.items()):
+        oid = f"{prop}/pyvc/{fnq}/{clause}"
+        n += 1
+        if a["bad"] is None:
+            rep.discharged_ob(oid, "pyvc-paths", 0.0, sample=f"{oid} ({a['n']} cases)")
+        else:
+            what, detail = a["bad"]
+            rep.failed_ob(Finding(prop, oid, f"{fnq}|{clause}", f"{fnq}: {what} [{detail}]", replay={"clause": clause, **{k: str(v) for k, v in detail.items()}}, replayed=False))
+    return n
